@@ -6,7 +6,7 @@ Core Lean only.
 -/
 open FeatModel.Adj
 
-namespace C19L
+namespace C19L.renders
 
 /-! ### generic: row of a mapped adjacency -/
 
@@ -329,4 +329,4 @@ theorem arrays_faithful (g : Graph) (i : Nat) (hi : i < g.nDom) :
   have := (arrays_aux g.adj 0 i hi).2
   simpa [Graph.row, Graph.imageIdx, Graph.domainPtr] using this
 
-end C19L
+end C19L.renders
